@@ -190,12 +190,14 @@ def judge_witnesses(ctx, bad, cases):
 def order_plan(ctx, axioms):
     cases = ctx.gen("MC_Order")
     events = ctx.drive("base", cases)
-    bad = ctx.validate("Trace_Order", events, shards=1, env={"AXIOMS": axioms}, floor=0.9)
+    bad = ctx.validate("Trace_Order", events, shards=4, env={"AXIOMS": axioms}, floor=0.9)
     judge_witnesses(ctx, bad, cases)
-    n = len(L.read_ndjson(cases)[0]["ts"])
-    ctx.extra["objects"] = n
-    ctx.extra["ordered_pairs"] = n * n
-    ctx.extra["triples"] = n * n * n
+    sizes = [len(r["ts"]) for r in L.read_ndjson(cases)]
+    ctx.extra["universes"] = len(sizes)
+    ctx.extra["objects"] = sum(sizes)
+    ctx.extra["ordered_pairs"] = sum(n * n for n in sizes)
+    ctx.extra["triples"] = sum(n * n * n for n in sizes)
+    ctx.decisive = ctx.extra["ordered_pairs"]
     ctx.exhaustive = True
 
 
@@ -254,3 +256,19 @@ def c28(ctx):
                 "conditions; the simplified formula the library returns must have the same truth value as the recipe "
                 "at all 25 assignments of x, y over a grid that realises every cell of the atoms")
     simple(ctx, "MC_C28", "Trace_Val", floor=0.5)
+
+
+@plan("C21")
+def c21(ctx):
+    ctx.rule = ("model MC_Kron: TLC checks the transcription of UIntDict::mul (Kronecker substitution, signed-digit "
+                "decoding) against schoolbook multiplication for all pairs of integer polynomials of length <= 3 over "
+                "{-7,-3,-1,0,1,2,7} (the pre-repair digit width must be refuted); model MC_C21: pairs of integer and "
+                "rational coefficient lists (all small pairs, seeded larger ones, squares); every operation (from_vec, "
+                "add, sub, mul, neg, pow, diff, eval, degree, divides with quotient, as_symbolic/from_basic round "
+                "trip, from_basic of a product) is replayed and validated against the schoolbook arithmetic of module Poly")
+    ctx.model_check("MC_Kron", cfg="MC_KronNeg.cfg", expect_violation=True)
+    if ctx.thorough:
+        ctx.model_check("MC_Kron", cfg="MC_Kron.cfg", workers=8)
+    else:
+        ctx.model_check("MC_Kron", cfg="MC_KronQ.cfg", workers=4)
+    simple(ctx, "MC_C21", "Trace_C21", floor=0.5)
